@@ -195,6 +195,21 @@ Theorem C11_uivk_roundtrip : forall O net k,
     /\ forall net', net' <> net -> uivk_decode O net' (Bech hrp (Some raw)) = Err ENetwork.
 Proof. exact uivk_roundtrip. Qed.
 
+Theorem C11_ufvk_roundtrip_addresses : forall O net k,
+  net < 3 -> ufvk_wf O k -> ufvk_encodable k = true ->
+  comp_len_ok KFvk (fvk_t k) (fvk_s k) (fvk_o k) -> unknown_sizes_ok (fvk_unknown k) ->
+  exists hrp raw k', ufvk_encode net k = Ok (hrp, raw)
+    /\ ufvk_decode O net (Bech hrp (Some raw)) = Ok k'
+    /\ ufvk_encode net k' = Ok (hrp, raw)
+    /\ forall j r, ufvk_address O k' j r = ufvk_address O k j r /\ ufvk_address O k j r <> Panic.
+Proof. exact ufvk_roundtrip_addresses. Qed.
+
+Theorem C11_usk_roundtrip_addresses : forall O k,
+  usk_wf O k ->
+  exists k', usk_from_bytes O (usk_to_bytes k) = Ok k' /\ usk_to_bytes k' = usk_to_bytes k
+    /\ forall j r, usk_address O k' j r = usk_address O k j r /\ usk_address O k j r <> Panic.
+Proof. exact usk_roundtrip_addresses. Qed.
+
 Theorem C11_ufvk_encode_panics_iff_transparent_only : forall net k,
   unknown_ok (fvk_unknown k) -> (ufvk_encode net k = Panic <-> ufvk_encodable k = false).
 Proof. exact ufvk_encode_panics. Qed.
